@@ -171,9 +171,10 @@ DeltaCases ==
 \* top-left at the reuse element's x/y (a shape) or translated there (a group)
 ReusePosCases ==
     {[fam |-> "rel", form |-> "reusepos", tkind |-> tk, w |-> sz[1], h |-> sz[2], x |-> p[1], y |-> p[2], where |-> wh,
-      exp |-> B(p[1], p[2], p[1] + sz[1], p[2] + sz[2])] :
+      anchor |-> an, exp |-> PlaceAt(p, an, sz[1], sz[2])] :
         tk \in {"rect", "circle", "ellipse", "g", "symbol"}, sz \in {<<8, 8>>},
-        p \in {<<0, 0>>, <<20, -12>>, <<-16, 4>>}, wh \in {"specs", "inline-before", "inline-after"}}
+        p \in {<<0, 0>>, <<20, -12>>, <<-16, 4>>}, wh \in {"specs", "defs", "inline-before", "inline-after"},
+        an \in {"tl", "c", "br", "t"}}
 
 \* chains: b placed against a, c against b (translation composes)
 ChainCases ==
